@@ -154,7 +154,11 @@ def explore(engine, prop, tier, seed, batch=BATCH_DEFAULT, isolate=None, budget_
     known = findings.load(prop)
     engine.prepare(prop, tier, seed)
     n = engine.n_runs(prop, tier)
-    indices = list(range(n))
+    # the engine may say in which order its index space is worked off (what is enumerated or stratified first, what is
+    # sampled last): the exploration budget then cuts the sampled part, never the systematic one
+    order = getattr(engine, 'run_order', None)
+    indices = list(order(prop, tier)) if order is not None else list(range(n))
+    assert sorted(indices) == list(range(n))
     tasks = [Batch(engine.ENGINE, prop, tier, seed, indices[i:i + batch], isolate)
              for i in range(0, n, batch)]
     deadline = None if budget_s is None else time.monotonic() + budget_s      # the budget is for exploration, after preparation
